@@ -23,12 +23,15 @@ CONSTANTS
   FlushEntry = TRUE
   UnmapOnDrop = TRUE
   Linear = TRUE
+  AllowNested = FALSE
+  OthersCall = "never"
+  KeepPagesWritable = FALSE
   UserCalls = FALSE
   MaxUserCalls = 0
   InstallKinds = {"jump", "bool"}
   Faults = {"mmap", "mprotect"}
   MaxLives = 1
-  Gates = {"ok", "sig", "bool", "null"}
+  Gates = {"ok", "sig", "bool", "null", "abandon"}
   MaxInstalls = 3
 CONSTRAINT CanonDrop
 INVARIANT Emit
